@@ -12,7 +12,8 @@ const CORPUS: &str = "/verif/corpus/C14";
 
 fn obs_model() -> String { mut_model(&mut_entities()) + "\nobs { Person { name: String, age: Integer nullable, pets: [obs.Pet] nullable, best: obs.Pet nullable, data: Json nullable } Pet { name: String } }" }
 
-const BASE_QUERIES: [&str; 6] = [
+const BASE_QUERIES: [&str; 7] = [
+    "query { obs.Person (data->$.x > 3, first $a, skip $a, search($n)) { name } }",
     "query { obs.Person { name age pets { name } } }",
     "query q { p: obs.Person (order_by(name asc), first 3, skip 1, age > 3, name != \"x\") { id mdate name best { id name } } }",
     "query { obs.Person (search(\"kiki\")) { name cnt: pets { c: count() } } }",
@@ -65,6 +66,27 @@ fn mutate_text(rng: &mut Rng, base: &str) -> (String, &'static str) {
             (format!("{}{}{}", base.trim_end_matches(|c| c == '}' || c == ' '), " pets { name ".repeat(d), "}".repeat(d + 2)), "deep nesting") }
     }
 }
+/// the value positions of a request text: string literals, numbers, true / false / null, $variables
+/// (byte ranges), found by a small lexer that knows nothing of the grammars
+fn value_positions(text: &str) -> Vec<(usize, usize)> {
+    let b = text.as_bytes(); let mut out = vec![]; let mut i = 0;
+    let is_id = |c: u8| c.is_ascii_alphanumeric() || c == b'_' || c >= 0x80;
+    while i < b.len() {
+        let c = b[i];
+        if c == b'"' { let st = i; i += 1; while i < b.len() && b[i] != b'"' { if b[i] == b'\\' { i += 1; } i += 1; } i = (i + 1).min(b.len()); out.push((st, i)); }
+        else if c == b'$' { let st = i; i += 1; while i < b.len() && is_id(b[i]) { i += 1; } if i > st + 1 { out.push((st, i)); } }
+        else if c.is_ascii_digit() || (c == b'-' && i + 1 < b.len() && b[i + 1].is_ascii_digit()) {
+            let prev_id = i > 0 && (is_id(b[i - 1]) || b[i - 1] == b'.' || b[i - 1] == b'$');
+            let st = i; i += 1; while i < b.len() && (b[i].is_ascii_digit() || b[i] == b'.') { i += 1; }
+            if !prev_id { out.push((st, i)); } }
+        else if is_id(c) { let st = i; while i < b.len() && (is_id(b[i]) || b[i] == b'.') { i += 1; }
+            if matches!(&text[st..i], "true" | "false" | "null") { out.push((st, i)); } }
+        else { i += 1; }
+    }
+    out
+}
+const LITERALS: [&str; 12] = ["null", "true", "false", "0", "-1", "3", "1.5", "\"plain text\"", "\"QUJD\"", "\"\"", "$zz", "$a"];
+
 fn params_for(rng: &mut Rng) -> Parameters {
     let mut p = Parameters::default();
     // half of the time long multi-byte text where a name / number / JSON is expected
@@ -224,7 +246,7 @@ pub async fn observed_streams(rng: &mut Rng, out: &mut Out, stats: &mut serde_js
     }
     // ---- (b) mutated requests
     let groups: [(&str, u64, &[&str]); 5] = [("query", 1, &BASE_QUERIES), ("mutate", 2, &BASE_MUTATIONS), ("delete", 3, &BASE_DELETIONS), ("datamodel", 4, &BASE_MODELS), ("paramsjson", 5, &BASE_PARAMS)];
-    let n_b = scale(450, 9000);
+    let n_b = scale(350, 9000);
     for i in 0..n_b {
         let (api, stream, bases) = groups[[0usize, 0, 0, 1, 1, 1, 2, 3, 4][rng.below(9) as usize]];
         let base = *rng.pick(bases);
@@ -239,6 +261,30 @@ pub async fn observed_streams(rng: &mut Rng, out: &mut Out, stats: &mut serde_js
         }
         out.push(Case { kind: format!("mutated-{}", api), coq: format!("CObs {}", gn(stream)), obs: vec![d + (o >= 2 && d == 0) as i64, p], meta });
     }
+
+    // ---- literals of every kind at EVERY value position of every base request: what the grammar
+    //      accepts at a position must be handled by the semantic layer behind it
+    let mut n_subst = 0usize;
+    for (api, stream, bases) in groups.iter().filter(|g| g.0 != "paramsjson") {
+        for base in bases.iter() {
+            for (st, en) in value_positions(base) {
+                for lit in LITERALS {
+                    if &base[st..en] == lit { continue; }
+                    let text = format!("{}{}{}", &base[..st], lit, &base[en..]);
+                    let (o, d, p) = run.exec(api, &text).await;
+                    n_subst += 1;
+                    total[*stream as usize] += 1; if o == 0 { accepted[*stream as usize] += 1; }
+                    let mut meta = json!({"api": api, "how": "literal substituted at a value position", "outcome": o});
+                    if d > 0 || p == 0 || o >= 2 {
+                        save_corpus(*stream, api, &text, &format!("literal {} at bytes {}..{} -> outcome {} panics {} probe {} {}", lit, st, en, o, d, p, last_panic()));
+                        meta["text"] = json!(text); meta["panic"] = json!(last_panic());
+                    }
+                    out.push(Case { kind: format!("literal-{}", api), coq: format!("CObs {}", gn(*stream)), obs: vec![d + (o >= 2 && d == 0) as i64, p], meta });
+                }
+            }
+        }
+    }
+    stats.insert("literal_substitutions".into(), json!(n_subst));
 
     // ---- (d) malformed rows through the ingestion entry points
     let sk = Ed25519SigningKey::create_from(&random32());
